@@ -132,12 +132,12 @@ class CFG:
         if isinstance(st, ast.Break):
             n = self._new("stmt", st)
             self._connect(froms, n)
-            self._edge(n, self._loops[-1][1], "break")
+            self._edge(n, self._loops[-1][1] if self._loops else self.exit, "break")
             return []
         if isinstance(st, ast.Continue):
             n = self._new("stmt", st)
             self._connect(froms, n)
-            self._edge(n, self._loops[-1][0], "continue")
+            self._edge(n, self._loops[-1][0] if self._loops else self.exit, "continue")
             return []
         if isinstance(st, ast.Return):
             n = self._new("stmt", st)
